@@ -11,14 +11,15 @@ from common import Ctx, MachineryError, pmap, write_json
 
 # deviation flag of the tree under test: '>=' leaves the delimiter space of \\geq visible
 IMPL_GE_SPACE = True
-ALPHA = {"x", "A", "B", "M", "p", "1", "sp", "^", "_", ">", "<", "=", "nl", "bs", "G", "E", ".", "T", "F"}
+ALPHA = {"x", "A", "B", "M", "p", "1", "sp", "^", "_", ">", "<", "=", "nl", "bs", "G", "E", "H", ".", "T", "F"}
 PLAN = {"quick": dict(maxlen=3, sim_len=10, sim_num=1500, ktemplates=7, comps=True),
         "thorough": dict(maxlen=4, sim_len=24, sim_num=20000, ktemplates=40, comps=True)}
 KTEMPLATES = [["K"], ["x", "sp", "K"], ["K", "sp", "x"], ["K", "K"], ["K", "x"], ["K", "G"], ["K", "E"], ["K", "1"], ["K", "."], ["^", "K"], ["K", ">", "="],
               ["x", "K"], ["K", "nl", "K"], ["K", "sp", "K"], ["1", "K", "1"], ["K", "A"], ["K", "_", "x"], ["G", "K"], ["K", "sp", "sp", "x"],
               ["K", "p"], ["p", "K"], ["K", "T"], ["F", "K"], ["K", "<", "="], ["=", "K", "="], [".", "K", "."], ["K", "B", "x"], ["K", "x", "G"],
               ["K", "sp", "1"], ["x", "^", "K", "_", "x"], ["K", "K", "K"], ["K", "1", "sp", "x"], ["bs", "A", "K"], ["K", "bs", "A"], ["K", "bs", "M", "G"],
-              ["nl", "K"], ["K", "nl"], ["sp", "K", "sp"], ["K", "M"], ["K", "G", "G"], ["K", ">"]]
+              ["nl", "K"], ["K", "nl"], ["sp", "K", "sp"], ["K", "M"], ["K", "G", "G"], ["K", ">"],
+              ["K", "H"], ["K", "H", "H"], ["H", "K"], ["K", "sp", "H"], ["bs", "M", "H"], ["bs", "B", "H", "K"], ["K", "x", "H"]]
 # LaTeX names that are also RTF control words the reader interprets as formatting (not reported
 # as in-text events): excluded where the command stays verbatim
 READER_WORDS = {"b", "i", "ul", "strike", "super", "sub", "par", "pard", "page", "cell", "row", "u", "uc", "plain", "f", "fs", "cf", "cb",
@@ -162,7 +163,7 @@ def run(pid, tier, seed, replay=None):
                         if not k["braced"]:
                             if run_ and (cmd + run_) in table:
                                 ok = False
-                            if q < len(tpl) and tpl[q] in ("G", "E") and (cmd + run_ + textconv.PIECES[tpl[q]]) in table:
+                            if q < len(tpl) and tpl[q] in ("G", "E", "H") and (cmd + run_ + textconv.PIECES[tpl[q]]) in table:
                                 ok = False
                         if not cmd[1:2].isalpha():
                             ok = ok and not run_
@@ -173,9 +174,22 @@ def run(pid, tier, seed, replay=None):
                     if ok:
                         items.append({"id": len(items), "inp": tpl, "conv": conv, "kcmd": cmd, "pred": None})
         batches = [{"items": items[k:k + 120]} for k in range(0, len(items), 120)]
+        # GENERATE D: the same strings in a five-column frame whose grouping column is removed from the display, with
+        # text_convert given as a column pattern narrower than the frame (per-cell control must follow the caller's columns)
+        layouts = [dict(by="subline", gpos=0, pat=[1, 0]), dict(by="pageby", gpos=2, pat=[0, 1, 1]), dict(by="subline", gpos=1, pat=[1, 0, 0, 1]),
+                   dict(by="pageby", gpos=0, pat=[0, 0, 1])]
+        pool_d = [it for it in items if it["kcmd"] is None][:plan.get("grid_items", 480)]
+        grid_items = []
+        for li, lay in enumerate(layouts):
+            part = pool_d[li::len(layouts)]
+            for k0 in range(0, len(part), 120):
+                chunk_items = [dict(it, id=len(items) + len(grid_items) + j) for j, it in enumerate(part[k0:k0 + 120])]
+                grid_items += chunk_items
+                batches.append({"items": chunk_items, "layout": lay})
+        ctx.extra["grid_layout_cells"] = len(grid_items)
         out = pmap(textconv.run_batch, batches, chunk=2)
         recs = [r for b in out for r in b]
-        by_id = {it["id"]: it for it in items}
+        by_id = {it["id"]: it for it in items + grid_items}
         for r in recs:
             r["kcmd"] = by_id[r["id"]]["kcmd"]
         # GENERATE C: every component kind with its default and overridden text_convert
@@ -184,7 +198,7 @@ def run(pid, tier, seed, replay=None):
             for comp in COMPS:
                 for ov in (None, True, False):
                     for pr in PROBES:
-                        comp_items.append({"id": len(items) + len(comp_items), "inp": pr, "comp": comp, "override": ov})
+                        comp_items.append({"id": len(items) + len(grid_items) + len(comp_items), "inp": pr, "comp": comp, "override": ov})
             recs += pmap(textconv.run_component, comp_items, chunk=8)
         verdicts = _validate(ctx, work, recs, "text")
         nd = _classify(ctx, recs, verdicts)
